@@ -30,6 +30,8 @@ VARIABLES l,     \* cursor
           viol   \* rule tags this explanation of the current scenario has had to break
 
 tvars == <<vars, l, k, tr, viol>>
+\* the silent-step counter is not part of a state's identity (BFS reaches each state with the fewest silent steps first)
+tview == <<vars, l, tr, viol>>
 
 Ev == Rec[l]
 Is(t) == l <= Len(Rec) /\ Rec[l].t = t
